@@ -33,6 +33,16 @@ FIXED_B = [
      "messages": [{"sender": "s@rem.example", "rcpts": ["joe@loc.example"], "body": "x\n"},
                   {"sender": "s@rem.example", "rcpts": ["r@rem.example", "q@rem.example"], "body": "y\n"}],
      "scripts": {"0:0": "ZK"}, "bscript": "", "texts": ["ok"], "tape": [0, 0, 0, 0, 0, 0], "actions": ["answer", "inject", "advance"], "mode": {"kind": "none"}},
+    # a signal interrupts the sleep towards a retry: HUP arrives 100 s (then again 37 s later) into the wait for the deferred recipient; the
+    # time base of the next timeout must be the current time (added after seeded change C16-D)
+    {"controls": {"me": "me.example\n", "locals": "loc.example\n"}, "limits": [120, 120],
+     "messages": [{"sender": "s@rem.example", "rcpts": ["r@rem.example"], "body": "x\n"}],
+     "scripts": {"0:0": "ZK"}, "bscript": "", "texts": ["ok"], "tape": [], "plan": ["inject", "answer", "advance_part:99", "hup", "advance_part:36", "hup"],
+     "actions": ["answer", "inject", "advance", "hup"], "mode": {"kind": "none"}},
+    {"controls": {"me": "me.example\n", "locals": "loc.example\n"}, "limits": [120, 120],
+     "messages": [{"sender": "s@rem.example", "rcpts": ["joe@loc.example"], "body": "x\n"}],
+     "scripts": {"0:0": "ZZK"}, "bscript": "", "texts": ["ok"], "tape": [], "plan": ["inject", "answer", "advance_part:9", "alrm", "answer", "advance_part:50", "hup"],
+     "actions": ["answer", "inject", "advance", "hup", "alrm"], "mode": {"kind": "none"}},
 ]
 
 
